@@ -258,7 +258,9 @@ def secp_uncompressed(ctx, f):
         return False, "result is not filled by exactly one whole-array copy"
     src = fills[0]["src"]
     pat = ("index", P.call(name="serialize_uncompressed", args=[P.param(1)]), P.agg("RangeFrom", {"start": P.const(1)}))
-    if P.match(src, pat) is None:
+    # any spelling of "everything after the tag byte": [1..], [1..65], split_at(1).1
+    tail = shapes.slice_range(src) in ((1, None), (1, 65)) and P.match(shapes.slice_base(src), P.call(name="serialize_uncompressed", args=[P.param(1)])) is not None
+    if P.match(src, pat) is None and not tail:
         return False, "source is %s, expected self.serialize_uncompressed()[1..]" % short(src)
     return True, ""
 
